@@ -23,7 +23,9 @@ Range(s) == {s[i] : i \in DOMAIN s}
 Abs(x) == IF x < 0 THEN 0 - x ELSE x
 W1(w) == IF w < 1 THEN 1 ELSE w                 \* weights below 1 count as 1
 
-NewB == [in |-> FALSE, age |-> 0, run |-> 0, cum |-> 0, infl |-> 0, disp |-> 0, idle |-> 0]
+\* disp0: dispatches counted before the name was (last) added again -- a re-added backend may publish its totals
+\* from zero or carry the name's history on, the statement does not say which
+NewB == [in |-> FALSE, age |-> 0, run |-> 0, cum |-> 0, infl |-> 0, disp |-> 0, disp0 |-> 0, idle |-> 0]
 
 \* e.cfg = [strategy, backends: seq of [name, w], passive: [on, thr, win], active: [on, iv]]
 ObsInit(c) ==
@@ -184,7 +186,10 @@ ObsAdmin(o, op, name, w, s, status, pre, items) ==
                    Changed([o1 EXCEPT !.pool = Append(o.pool, name), !.b = Upd(o.b, name, NewB),
                                       !.w = Upd(o.w, name, W1(w)), !.removed = @ \ {name}])
               [] okAdd /\ name \in DOMAIN o.b /\ name \notin Range(o.pool) ->
-                   Changed([o1 EXCEPT !.pool = Append(o.pool, name), !.b = Upd(o.b, name, NewB),
+                   \* exchanges of the removed backend that are still in flight complete under the same name
+                   Changed([o1 EXCEPT !.pool = Append(o.pool, name),
+                                      !.b = Upd(o.b, name, [NewB EXCEPT !.infl = o.b[name].infl, !.disp = o.b[name].disp,
+                                                                        !.disp0 = o.b[name].disp - o.b[name].infl]),
                                       !.w = Upd(o.w, name, W1(w)), !.removed = @ \ {name}])
               [] okRm /\ name \in Range(o.pool) ->
                    Changed([o1 EXCEPT !.pool = SelectSeq(o.pool, LAMBDA x : x # name), !.removed = @ \cup {name},
@@ -205,7 +210,8 @@ ObsSnap(o, e) ==
       vPart == IF e.total # e.ok + e.failed + e.limited + npend THEN <<V("C13", "Partition", "sum")>> ELSE <<>>
       \* rate-limited is the one class the statement names exactly
       vLim == IF e.limited # o.nlimited THEN <<V("C13", "LimitedCount", "rate_limited")>> ELSE <<>>
-      bt == {n \in DOMAIN o.b : n \in DOMAIN e.backends /\ e.backends[n].total # o.b[n].disp - o.b[n].infl}
+      bt == {n \in DOMAIN o.b : n \in DOMAIN e.backends /\ e.backends[n].total # o.b[n].disp - o.b[n].infl
+                                                          /\ e.backends[n].total # o.b[n].disp - o.b[n].infl - o.b[n].disp0}
       bt0 == {n \in DOMAIN o.b : n \notin DOMAIN e.backends /\ o.b[n].disp - o.b[n].infl # 0}
       vBT == IF bt \cup bt0 # {} THEN <<V("C13", "BackendTotals", CHOOSE n \in bt \cup bt0 : TRUE)>> ELSE <<>>
       g1 == {n \in DOMAIN o.b : n \in DOMAIN e.backends /\ e.backends[n].active # inflight[n]}
